@@ -1445,10 +1445,18 @@ func (e *UnaryExpression) MarshalJSON() ([]byte, error) {
 }
 
 func (e *UnaryExpression) precedence() expressionPrecedence {
+	precedence := expressionPrecedenceUnaryPrefix
 	if e.Operation == OperationMove {
-		return expressionPrecedenceMove
+		precedence = expressionPrecedenceMove
 	}
-	return expressionPrecedenceUnaryPrefix
+	// An operand which is itself a prefix expression is printed without parentheses,
+	// e.g. `<- attach A() to b`. Whatever follows is then read as part of
+	// the operand's operand, so the whole expression binds only as tightly as its operand.
+	switch operand := e.Expression.(type) {
+	case *UnaryExpression, *DestroyExpression, *AttachExpression:
+		return min(precedence, operand.precedence())
+	}
+	return precedence
 }
 
 // BinaryExpression
@@ -2074,7 +2082,9 @@ func (e *DestroyExpression) MarshalJSON() ([]byte, error) {
 }
 
 func (*DestroyExpression) precedence() expressionPrecedence {
-	return expressionPrecedenceUnaryPrefix
+	// NOTE: the parser parses the operand with the lowest binding power,
+	// i.e. everything that follows is part of the operand
+	return expressionPrecedenceTernary
 }
 
 // ReferenceExpression
